@@ -12,6 +12,7 @@ REQUIRED = [
     "DaeVerif.C05.Props.relay_starts_within_window",
     "DaeVerif.C05.Props.no_deadline_left_armed",
     "DaeVerif.C05.Props.poison_only_after_client_reset",
+    "DaeVerif.C05.Props.armed_deadline_cuts_idle_client",
     "DaeVerif.C05.Props.upstream_receives_client_stream",
     "DaeVerif.C05.Props.client_receives_upstream_stream",
     "DaeVerif.C05.Props.received_is_prefix_of_sent",
@@ -54,17 +55,28 @@ def run(ctx):
         ctx.say("HARNESS-FAILED (deadline path extractor)", out[-3000:])
         return 2
     new = open(gen_new, encoding="utf-8").read()
-    old = open(GEN, encoding="utf-8").read() if os.path.exists(GEN) else ""
-    if new != old:
-        os.makedirs(os.path.dirname(GEN), exist_ok=True)
-        open(GEN, "w", encoding="utf-8").write(new)
     path_rows = read_lines(os.path.join(ctx.out, "c05_paths.txt"))
     ctx.cov["deadline_paths"] = {"rows": len(path_rows),
                                  "uncleared": [r for r in path_rows if "cleared=false" in r and "armFailed=false" in r]}
 
-    # 2. prove
-    ctx.prove(["DaeVerif.C05.Props"], ["DaeVerif.C05.Props"], ["DaeVerif/C05/*.lean", "DaeVerif/C05/Gen/*.lean"],
-              extra_targets=["c05drv"])
+    # 2. prove.  Gen/DeadlinePaths.lean is one file in the shared lake workspace: concurrent runs (other seeds, other
+    #    VERIF_REPO) are serialised from "write my table" to "my proofs are audited", so a run is always proved against
+    #    its own table; a table that does not prove is not left behind.
+    import fcntl
+    os.makedirs(os.path.join(VERIF, ".cache"), exist_ok=True)
+    with open(os.path.join(VERIF, ".cache", "c05-gen.lock"), "w") as lockf:
+        fcntl.flock(lockf, fcntl.LOCK_EX)
+        old = open(GEN, encoding="utf-8").read() if os.path.exists(GEN) else ""
+        if new != old:
+            os.makedirs(os.path.dirname(GEN), exist_ok=True)
+            tmp = GEN + ".tmp%d" % os.getpid()
+            open(tmp, "w", encoding="utf-8").write(new)
+            os.replace(tmp, GEN)
+        ctx.prove(["DaeVerif.C05.Props"], ["DaeVerif.C05.Props"], ["DaeVerif/C05/*.lean", "DaeVerif/C05/Gen/*.lean"],
+                  extra_targets=["c05drv"])
+        if ctx.proof_failures and old and new != old:
+            open(GEN, "w", encoding="utf-8").write(old)
+        fcntl.flock(lockf, fcntl.LOCK_UN)
     ctx.required_theorems(REQUIRED)
     table_broken = any("deadline_cleared_on_every_path" in f or "deadline_table_covers_probes" in f or
                        ("lake build failed" in f and "Props.lean" in f and "decide" in f.lower())
@@ -75,7 +87,8 @@ def run(ctx):
     distinct = set()
     samples = []
     dist = {}
-    for test, stream in (("TestVerifC05Conn", "c05conn"), ("TestVerifC05Tcp", "c05tcp"), ("TestVerifC05Wrap", "c05wrap")):
+    for test, stream in (("TestVerifC05Conn", "c05conn"), ("TestVerifC05Concurrent", "c05par"), ("TestVerifC05Tcp", "c05tcp"),
+                         ("TestVerifC05Wrap", "c05wrap")):
         rc, out = ctx.run_harness(binp, test)
         ops, impl, model = (os.path.join(ctx.out, stream + "." + e) for e in ("ops", "impl", "model"))
         if rc != 0 or not os.path.exists(ops):
@@ -89,7 +102,7 @@ def run(ctx):
         evaluations += len(op_lines)
         for ln, op, im, mo in mism[:8]:
             what = f"implementation differs from proved model ({stream} line {ln}): impl `{im[:300]}` model `{mo[:300]}`"
-            if stream == "c05conn" and ln > 0:
+            if stream in ("c05conn", "c05par") and ln > 0:
                 fi, fm = fields(im), fields(mo)
                 diff = [k for k in fm if fi.get(k) != fm.get(k)]
                 hints = []
@@ -115,7 +128,7 @@ def run(ctx):
                            "(Read / TakeRelaySegments / CopyRelayRemainder / WriteTo, in this order: " + op.split()[-1] +
                            ") is not the bytes fed in — " + im[-200:],
                            {"stream": stream, "op": op, "impl": im, "read_sequence": op.split()[-1].split(",")})
-            if stream == "c05conn":
+            if stream in ("c05conn", "c05par"):
                 f = fields(im)
                 if f.get("armed") == "1":
                     ctx.report("a detection read deadline is still armed on the client socket at the dial "
@@ -132,7 +145,7 @@ def run(ctx):
     if table_broken and not ctx.violations:
         # a broken path table: say which path
         bad = ctx.cov["deadline_paths"]["uncleared"]
-        bad = [b for b in bad if not b.startswith("relayCore.run ")]
+        bad = [b for b in bad if not ("recv=dir.dst" in b and "arg=time.Now().Add(c.halfCloseTimeout)" in b)]
         if bad:
             ctx.proof_failures.append("deadline path(s) without a clearing call: " + " | ".join(bad)[:1500])
     ctx.samples = samples
